@@ -19,7 +19,7 @@ func init() {
 			"(P10-accessors) the error object stores line/position/length/title/details where its accessors read them, LineText() indexes the error's own block with the error's own line, Column() = Position()+1, and the terminal and JSON renderings are computed from those accessors of each error in turn; " +
 			"(P10-order) error accumulators only grow at the end, starting empty, in the serial parser, the merge of the parallel parser and ReadInputs; (P10-renumber = P07-renumber) blocks are renumbered after the parallel merge. " +
 			"Not covered: that positions/lengths stay inside the line, and that the first error is on the first non-conforming line (both need the parser evaluated on inputs).",
-		rules: []ruleFn{ruleP10Epoch, ruleP10Accessors, ruleP10Order, ruleP07Renumber},
+		rules: []ruleFn{ruleP10Epoch, ruleP10Accessors, ruleP10Order, ruleP10OneError, ruleP07Renumber},
 	})
 }
 
